@@ -406,6 +406,7 @@ func ShortDocs() []corpus.Doc {
 		// a UTF-8 byte order mark in front (whatever a minifier does with it, every entry point
 		// and every chunking must do the same)
 		mk("text/html", "\xef\xbb\xbf<p> a"), mk("text/css", "\xef\xbb\xbfa{ }"), mk("application/javascript", "\xef\xbb\xbfa =1"), mk(MTStream, "\xef\xbb\xbfbom"),
+		mk(MTWrap, ""), mk(MTWrap, "wrapped"),
 		mk("text/html", ""), mk("text/css", ""), mk("application/javascript", ""), mk("application/json", ""), mk("image/svg+xml", ""), mk("text/xml", ""),
 	}
 }
